@@ -22,7 +22,7 @@ for pid in sorted(os.listdir(f"{ROOT}/seeded")):
         if os.path.exists(os.path.join(pd, k, "patch.diff")):
             dirs.append(os.path.join(pd, k))
 out = {}
-with cf.ThreadPoolExecutor(max_workers=3) as ex:
+with cf.ThreadPoolExecutor(max_workers=4) as ex:
     for d, pid, r in ex.map(one, dirs):
         key = os.path.relpath(d, f"{ROOT}/seeded")
         res = r.get(pid, r)
